@@ -499,6 +499,13 @@ type zzC07Log struct {
 	// Enc..App window: fileFlushLock is held by the harness as flushLogBuffer
 	// would hold it.
 	held     bool
+	// gate: fileFlushLock is held by the harness to keep the flushing
+	// goroutine that an Add has started (or is about to start) from running
+	// until the walk takes the autoflush / autoflushfail step.  The harness
+	// acts as the scheduler here; nothing of the object is modified.
+	gate bool
+	// aside is set while the log file path is made unwritable (I/O fault).
+	aside string
 	batch    *bytes.Buffer
 	batchIDs []int
 
@@ -640,8 +647,11 @@ func (x *zzC07Log) conf() (c Config) {
 func (x *zzC07Log) waitFlush() (ok bool) {
 	deadline := time.Now().Add(10 * time.Second)
 	for {
+		// The flush has taken the entries out of the ring (first half) when
+		// the request flag is down or the ring is empty; nobody else adds or
+		// clears meanwhile.
 		x.l.bufferLock.RLock()
-		p := x.l.flushPending
+		p := x.l.flushPending && x.l.buffer.Len() > 0
 		x.l.bufferLock.RUnlock()
 		if !p {
 			break
@@ -654,9 +664,9 @@ func (x *zzC07Log) waitFlush() (ok bool) {
 		time.Sleep(20 * time.Microsecond)
 	}
 
-	if !x.held {
+	if !x.held && !x.gate {
 		// The flushing goroutine holds fileFlushLock from before it clears
-		// flushPending until the file is written.
+		// the ring until the write attempt is over.
 		x.l.fileFlushLock.Lock()
 		x.l.fileFlushLock.Unlock()
 	}
@@ -926,7 +936,7 @@ func (x *zzC07Log) record(name, cli string, shape int) {
 	after := x.ringNewest()
 	if after != 0 && after >= t0 && after <= t1 && before != after {
 		found = after
-	} else if !x.held {
+	} else if !x.held && !x.gate {
 		if !x.waitFlush() {
 			x.discard = "automatic flush did not finish"
 
@@ -1574,10 +1584,57 @@ func zzC07ShapeFor(rng *rand.Rand, reason string) (i int) {
 }
 
 // step performs one labelled action of the spec on the real object.
-func (x *zzC07Log) step(in *zzC07Input, st *zzC07Step) (err error) {
+// blockFile makes the log file path unwritable for the next flush: the file,
+// if any, is moved aside and a directory takes its place, so that
+// flushToFile's OpenFile fails.  restoreFile undoes it.
+func (x *zzC07Log) blockFile() (err error) {
+	p := filepath.Join(x.dir, queryLogFileName)
+	if _, serr := os.Stat(p); serr == nil {
+		x.aside = p + ".verif-aside"
+		if err = os.Rename(p, x.aside); err != nil {
+			return err
+		}
+	}
+
+	return os.Mkdir(p, 0o700)
+}
+
+func (x *zzC07Log) restoreFile() (err error) {
+	p := filepath.Join(x.dir, queryLogFileName)
+	if err = os.Remove(p); err != nil {
+		return err
+	}
+
+	if x.aside != "" {
+		err = os.Rename(x.aside, p)
+		x.aside = ""
+	}
+
+	return err
+}
+
+// releaseGate lets a held-back flushing goroutine run.
+func (x *zzC07Log) releaseGate() {
+	if x.gate {
+		x.gate = false
+		x.l.fileFlushLock.Unlock()
+	}
+}
+
+// step performs one labelled action of the spec on the real object.  expectFp
+// says that the spec's state after the step has an automatic flush requested.
+func (x *zzC07Log) step(in *zzC07Input, st *zzC07Step, expectFp bool) (err error) {
 	ctx := context.Background()
 	switch st.Act {
 	case "rec":
+		if expectFp && !x.held && !x.gate {
+			// The Add is going to start the flushing goroutine: hold it back,
+			// so that the state in between can be compared and the walk can
+			// choose between a flush that works and one that fails.
+			x.l.fileFlushLock.Lock()
+			x.gate = true
+		}
+
 		k := in.kinds[zzC07ArgInt(st.Args, "kind")-1]
 		x.record(k.Name, k.Cli, zzC07ShapeFor(x.rng, k.Reason))
 	case "enc":
@@ -1606,18 +1663,69 @@ func (x *zzC07Log) step(in *zzC07Input, st *zzC07Step) (err error) {
 		}
 
 		err = x.l.flushToFile(ctx, x.batch)
-		x.l.fileFlushLock.Unlock()
 		x.held, x.batch, x.batchIDs = false, nil, nil
+		if expectFp {
+			// An Add inside the window has a flushing goroutine waiting.
+			x.gate = true
+		} else {
+			x.l.fileFlushLock.Unlock()
+		}
+	case "appfail":
+		// Second half of flushLogBuffer with the file unwritable.
+		if !x.held {
+			return fmt.Errorf("appfail without enc")
+		}
+
+		if err = x.blockFile(); err != nil {
+			return err
+		}
+
+		werr := x.l.flushToFile(ctx, x.batch)
+		err = x.restoreFile()
+		x.held, x.batch, x.batchIDs = false, nil, nil
+		if expectFp {
+			x.gate = true
+		} else {
+			x.l.fileFlushLock.Unlock()
+		}
+
+		if werr == nil && err == nil {
+			err = fmt.Errorf("write fault was not injected")
+		}
 	case "flush":
 		// Both halves through the real function.
 		err = x.l.flushLogBuffer(ctx)
 		if err != nil && strings.Contains(err.Error(), "nothing to write") {
 			err = nil
 		}
+	case "flushfail":
+		// Both halves through the real function, the file unwritable.
+		if err = x.blockFile(); err != nil {
+			return err
+		}
+
+		werr := x.l.flushLogBuffer(ctx)
+		err = x.restoreFile()
+		if err == nil && (werr == nil || strings.Contains(werr.Error(), "nothing to write")) {
+			err = fmt.Errorf("write fault was not injected: %v", werr)
+		}
 	case "autoflush":
+		x.releaseGate()
 		if !x.waitFlush() {
 			x.discard = "automatic flush did not finish"
 		}
+	case "autoflushfail":
+		// The flush that Add requested, with the file unwritable.
+		if err = x.blockFile(); err != nil {
+			return err
+		}
+
+		x.releaseGate()
+		if !x.waitFlush() {
+			x.discard = "automatic flush did not finish"
+		}
+
+		err = x.restoreFile()
 	case "rotate":
 		err = x.l.rotate(ctx)
 	case "clear":
@@ -1652,9 +1760,9 @@ func (x *zzC07Log) step(in *zzC07Input, st *zzC07Step) (err error) {
 }
 
 func (x *zzC07Log) close() {
-	if x.held {
+	if x.held || x.gate {
 		x.l.fileFlushLock.Unlock()
-		x.held = false
+		x.held, x.gate = false, false
 	}
 
 	x.waitFlush()
@@ -1730,7 +1838,8 @@ func (h *zzC07Harness) newRun(id, init int) (r *zzC07Run) {
 // the single destination without comparison), "mismatch", "error", "discard".
 func (r *zzC07Run) do(st zzC07Step) (status string, got zzC07State) {
 	h := r.h
-	err := r.x.step(h.in, &st)
+	expectFp := len(st.Dsts) >= 1 && h.in.states[st.Dsts[0]].St.Fp
+	err := r.x.step(h.in, &st, expectFp)
 	if err != nil {
 		h.out.put(map[string]any{"kind": "harness_error", "walk": r.id, "step": len(r.steps), "act": st.Act, "err": err.Error()})
 
@@ -1741,7 +1850,7 @@ func (r *zzC07Run) do(st zzC07Step) (status string, got zzC07State) {
 		return "discard", got
 	}
 
-	if len(st.Dsts) == 1 && h.in.states[st.Dsts[0]].St.Fp && !r.x.held {
+	if len(st.Dsts) == 1 && h.in.states[st.Dsts[0]].St.Fp && !r.x.held && !r.x.gate {
 		// An automatic flush has been requested and nothing holds it back (the
 		// harness holds fileFlushLock only between enc and app): it runs in
 		// its own goroutine, so the state between the request and its
@@ -2014,7 +2123,8 @@ func (r *zzC07Run) windowChain(row *zzC07StateRow, q0 *zzC07Q) {
 // ---- planning
 
 var zzC07ActPrio = map[string]int{
-	"conf": 1, "enc": 2, "app": 2, "autoflush": 0, "rotate": 2, "restart": 2, "rec": 3, "clear": 4,
+	"conf": 1, "enc": 2, "app": 2, "appfail": 2, "autoflush": 0, "autoflushfail": 0, "rotate": 2, "restart": 2,
+	"rec": 3, "clear": 4,
 }
 
 // pick chooses the next group to take from state v: an uncovered one if there
@@ -2164,8 +2274,14 @@ func (h *zzC07Harness) oneWalk(id, init int) {
 			// An explicit flush whose halves follow each other directly is
 			// sometimes taken through the real flushLogBuffer.
 			if g.Act == "enc" && !g.self && h.rng.Intn(3) == 0 {
+				// ... and now and then with the file unwritable.
+				second := "app"
+				if h.rng.Intn(3) == 0 {
+					second = "appfail"
+				}
+
 				for _, c := range h.in.out[g.Dsts[0]] {
-					if c.Act == "app" {
+					if c.Act == second {
 						g2, fuse = c, true
 						if !c.covered {
 							c.covered = true
@@ -2187,6 +2303,9 @@ func (h *zzC07Harness) oneWalk(id, init int) {
 		st := zzC07Step{Act: g.Act, Args: g.Args, Dsts: g.Dsts}
 		if fuse {
 			st = zzC07Step{Act: "flush", Args: g.Args, Dsts: g2.Dsts}
+			if g2.Act == "appfail" {
+				st.Act = "flushfail"
+			}
 		}
 
 		before := r.asWalk()
@@ -2694,15 +2813,40 @@ func TestZZVerifC07Trace(t *testing.T) {
 				sh = longShape
 				reason = zzC07Shapes[sh].reason
 			}
+			// Now and then the flush that this Add is about to request finds
+			// the file unwritable.  (Whether it will request one is only
+			// guessed from the ring's fill to decide when to inject; what
+			// happened is read off afterwards.)
+			c0 := x.conf()
+			ringBefore := len(x.ringTimes())
+			fault := c0.Enabled && c0.FileEnabled && ringBefore+1 >= int(c0.MemSize) && rng.Intn(12) == 0
+			if fault {
+				if err := x.blockFile(); err != nil {
+					t.Fatalf("blocking the log file: %v", err)
+				}
+			}
+
 			sizeBefore := zzC07Size(filepath.Join(x.dir, queryLogFileName))
 			x.record(name, cli, sh)
 			auto := false
 			if x.waitFlush() {
-				auto = zzC07Size(filepath.Join(x.dir, queryLogFileName)) != sizeBefore
+				if fault {
+					auto = len(x.ringTimes()) == 0
+				} else {
+					auto = zzC07Size(filepath.Join(x.dir, queryLogFileName)) != sizeBefore
+				}
+			}
+
+			if fault {
+				if err := x.restoreFile(); err != nil {
+					t.Fatalf("restoring the log file: %v", err)
+				}
 			}
 
 			emit("rec", map[string]any{"name": name, "cli": cli, "reason": reason, "shape": zzC07Shapes[sh].name})
-			if auto {
+			if auto && fault {
+				emit("autoflushfail", nil)
+			} else if auto {
 				emit("autoflush", nil)
 			}
 		case roll < 950:
@@ -2793,17 +2937,25 @@ func TestZZVerifC07Trace(t *testing.T) {
 				continue
 			}
 
-			_ = x.step(nil, &zzC07Step{Act: "flush"})
-			emit("flush", nil)
+			if len(x.ringTimes()) > 0 && rng.Intn(5) == 0 {
+				if err := x.step(nil, &zzC07Step{Act: "flushfail"}, false); err != nil {
+					t.Fatalf("flushfail: %v", err)
+				}
+
+				emit("flushfail", nil)
+			} else {
+				_ = x.step(nil, &zzC07Step{Act: "flush"}, false)
+				emit("flush", nil)
+			}
 		case roll < 982:
-			_ = x.step(nil, &zzC07Step{Act: "rotate"})
+			_ = x.step(nil, &zzC07Step{Act: "rotate"}, false)
 			emit("rotate", nil)
 		case roll < 984:
-			_ = x.step(nil, &zzC07Step{Act: "clear"})
+			_ = x.step(nil, &zzC07Step{Act: "clear"}, false)
 			emit("clear", nil)
 		case roll < 992:
 			enabled, anon = rng.Intn(4) != 0, rng.Intn(3) == 0
-			err := x.step(nil, &zzC07Step{Act: "conf", Args: map[string]any{"en": enabled, "an": anon}})
+			err := x.step(nil, &zzC07Step{Act: "conf", Args: map[string]any{"en": enabled, "an": anon}}, false)
 			if err != nil {
 				t.Fatalf("conf: %v", err)
 			}
@@ -2815,7 +2967,7 @@ func TestZZVerifC07Trace(t *testing.T) {
 				nm = 3
 			}
 
-			err := x.step(nil, &zzC07Step{Act: "restart", Args: map[string]any{"ms": float64(nm)}})
+			err := x.step(nil, &zzC07Step{Act: "restart", Args: map[string]any{"ms": float64(nm)}}, false)
 			if err != nil {
 				t.Fatalf("restart: %v", err)
 			}
@@ -2854,7 +3006,7 @@ func zzC07ScanLog(t *testing.T, x *zzC07Log, emit func(ev string, extra map[stri
 	}
 
 	flush := func() {
-		_ = x.step(nil, &zzC07Step{Act: "flush"})
+		_ = x.step(nil, &zzC07Step{Act: "flush"}, false)
 		emit("flush", nil)
 	}
 
